@@ -240,12 +240,19 @@ def oracle(req, out):
         m = re.match(r"ok (\d+) fwd=(true|false)$", out)
         if not m:
             return f"the fold did not repeat its recorded call sequence: {out[:80]}"
+        src = unhex(ws[3])
+        ref = Ref(src)
+        ops = ws[4:]
+        why = ""
         if m.group(2) != "true":
-            bad = _describe(_first_not_forward(unhex(ws[3]), ws[4:]), ws[4:])
-            return ("the fold drives the forward-only LinearLocator with a history that is not forward "
-                    f"(hypothesis of linear_eq_spec): {bad}")
-        if any(op.endswith("=none") for op in ws[4:]):
-            return "a LinearLocator call panicked on a forward history"
+            why = ("; the fold drives the forward-only locator with a history that is not forward (hypothesis of "
+                   "linear_eq_spec): " + _describe(_first_not_forward(src, ops), ops))
+        for i, op in enumerate(ops):
+            o, res = op[1:].split("=")
+            if res == "none":
+                return f"LinearLocator call {i} ({op}) panicked{why}"
+            if ref.boundary(int(o)) and res != ref.show(int(o)):
+                return f"LinearLocator call {i} returned {op}, text says {ref.show(int(o))}{why}"
         return None
     return None
 
@@ -379,7 +386,13 @@ def classify(req, impl_out, model_out, failure):
         # only when model and implementation agree and the history is not forward in a listed way
         if impl_out != model_out or not re.match(r"ok \d+ fwd=false$", impl_out or ""):
             return None
-        return _history_finding(src, ws[4:], [])
+        ref = Ref(src)
+        wrong = []
+        for op in ws[4:]:
+            o, res = op[1:].split("=")
+            if res != "none" and ref.boundary(int(o)) and res != ref.show(int(o)):
+                wrong.append((int(o), int(o)))
+        return _history_finding(src, ws[4:], wrong)
     return None
 
 
@@ -998,7 +1011,7 @@ def streams(ctx):
     rng = ctx.rng("programs")
     g = Gen(rng)
     progs, modes = [], []
-    n = 300 if quick else 6000
+    n = 500 if quick else 6000
     for _ in range(n):
         k = rng.randrange(10)
         if k == 0:
@@ -1023,7 +1036,7 @@ def streams(ctx):
     files = _stdlib_files()
     rng = ctx.rng("stdlib")
     rng.shuffle(files)
-    want = 40 if quick else len(files)
+    want = 60 if quick else len(files)
     cap = 40_000 if quick else 400_000
     chosen = []
     for p in files:
